@@ -84,6 +84,7 @@ type HarnessResult struct {
 	Violations []*Violation
 	SolverQ    int
 	SolverSat, SolverUnsat, SolverUnknown int
+	Rescued                               int // unknown answers of the primary solver decided by the second one
 	SolverTime time.Duration
 	SolverErrors []string
 	Wall       time.Duration
@@ -238,7 +239,10 @@ func runHarness(l *Loaded, spec HarnessSpec, tier string, known map[string]Known
 		res.SolverQ += e.solver.Queries
 		res.SolverSat += e.solver.SatN
 		res.SolverUnsat += e.solver.UnsatN
-		res.SolverUnknown += e.solver.UnknownN
+		// unknown answers of the primary solver that the second solver decided are not counted
+		// as undecided (e.stats.SolverUnknown counts the verdicts that stayed unknown)
+		res.SolverUnknown += e.stats.SolverUnknown
+		res.Rescued += e.rescued
 		res.SolverTime += e.solver.Time
 		res.SolverErrors = append(res.SolverErrors, e.solver.Errors...)
 		if e.solver2 != nil {
